@@ -148,10 +148,22 @@ func (l *verifC17Log) take() [][]int {
 }
 
 // zap core that turns LogFailingEntityHandler's warning into a "reported" event
-type verifC17Core struct{ env *VerifC17Env }
+// the handler logs With("job.jobId", id): the report goes to the event log of THAT job (a run of an earlier case that is
+// still finishing in a timer goroutine can then never write into the log of the case that is running now)
+type verifC17Core struct {
+	env   *VerifC17Env
+	jobID string
+}
 
 func (c verifC17Core) Enabled(l zapcore.Level) bool           { return l >= zapcore.WarnLevel }
-func (c verifC17Core) With(f []zapcore.Field) zapcore.Core    { return c }
+func (c verifC17Core) With(f []zapcore.Field) zapcore.Core {
+	for _, fl := range f {
+		if fl.Key == "job.jobId" && fl.Type == zapcore.StringType {
+			return verifC17Core{env: c.env, jobID: fl.String}
+		}
+	}
+	return c
+}
 func (c verifC17Core) Sync() error                            { return nil }
 func (c verifC17Core) Check(e zapcore.Entry, ce *zapcore.CheckedEntry) *zapcore.CheckedEntry {
 	if c.Enabled(e.Level) {
@@ -165,6 +177,9 @@ func (c verifC17Core) Write(e zapcore.Entry, f []zapcore.Field) error {
 		if k := strings.Index(e.Message, mid); k > 0 {
 			c.env.mu.Lock()
 			l := c.env.cur
+			if c.jobID != "" && c.jobID != c.env.curID {
+				l = nil
+			}
 			c.env.mu.Unlock()
 			if l != nil {
 				l.add([]int{1, verifC17Idx(e.Message[len(pre):k])})
@@ -261,12 +276,13 @@ type VerifC17Env struct {
 	seq    int
 	mu     sync.Mutex
 	cur    *verifC17Log
+	curID  string
 }
 
 func VerifC17Setup(dir string) *VerifC17Env {
 	env := &VerifC17Env{dir: dir}
 	_ = os.MkdirAll(dir, 0o755)
-	env.logger = zap.New(verifC17Core{env}).Sugar()
+	env.logger = zap.New(verifC17Core{env: env}).Sugar()
 	cfg := &conf.Config{
 		Logger:        env.logger,
 		StoreLocation: dir,
@@ -291,6 +307,9 @@ func (env *VerifC17Env) Close() {
 func (env *VerifC17Env) setLog(l *verifC17Log) {
 	env.mu.Lock()
 	env.cur = l
+	if l == nil {
+		env.curID = ""
+	}
 	env.mu.Unlock()
 }
 
@@ -340,6 +359,9 @@ func (env *VerifC17Env) runSink(c VerifC17Case) (obs VerifC17Obs) {
 	}
 	log := &verifC17Log{}
 	env.setLog(log)
+	env.mu.Lock()
+	env.curID = id
+	env.mu.Unlock()
 	sink := &verifC17Sink{log: log, bad: verifC17Set(c.Bad), failCalls: verifC17Set(c.FailCalls), killAt: -1, pokeAt: -1}
 	j := &job{id: id, title: id, pipeline: &IncrementalPipeline{PipelineSpec{sink: sink, batchSize: 1000}},
 		runner: env.runner, errorHandlers: trigger.ErrorHandlers, dsm: env.dsm}
@@ -452,6 +474,9 @@ func (env *VerifC17Env) runJob(c VerifC17Case) (obs VerifC17Obs) {
 	j := tj[0]
 	log := &verifC17Log{}
 	env.setLog(log)
+	env.mu.Lock()
+	env.curID = id
+	env.mu.Unlock()
 	sink := &verifC17Sink{log: log, bad: verifC17Set(c.Bad), failCalls: verifC17Set(c.FailCalls), killAt: c.KillAt}
 	sink.kill = func() { env.runner.killJob(id) }
 	sink.pokeAt = -1
@@ -570,7 +595,11 @@ func (env *VerifC17Env) runJob(c VerifC17Case) (obs VerifC17Obs) {
 				}
 				time.Sleep(5 * time.Millisecond)
 			}
-			time.Sleep(300 * time.Millisecond) // let the deferred handleJobError of the timer run finish
+			// the deferred handleJobError of the timer run (result rewrite, then the decrement that schedules the next re-run)
+			// gives no signal when it is done: wait until the decrement is seen, or 3 s
+			for t0 := time.Now(); retries() >= before && time.Since(t0) < 3*time.Second; {
+				time.Sleep(5 * time.Millisecond)
+			}
 			pl.mu.Lock()
 			if len(pl.startAt) > run+1 && len(pl.endAt) > run {
 				if pl.startAt[run+1].Sub(pl.endAt[run]) < 40*time.Millisecond {
